@@ -8,7 +8,7 @@ indices; the initial value of the shared word is symbolic.  Sequential consisten
 import re
 
 from mir import Unsupported
-from sym import BV, Bool, Unit, Struct, Opt, Res, AtomicRef, Ref, Exec, split_top
+from sym import BV, Bool, Unit, Struct, Opt, Res, AtomicRef, Ref, ConstRef, Exec, split_top
 
 ATOMIC_RE = r"(?:^|::)Atomic(?:::<\w+>|U64|Usize|U32|U16|U8|I64|Isize|I32)?::(\w+)$"
 
@@ -33,8 +33,8 @@ def flatten(prefix, v, out):
     elif isinstance(v, Res):
         flatten(prefix + "_ok", v.is_ok, out)
         flatten(prefix + "_val", v.payload, out)
-    elif isinstance(v, (Unit, AtomicRef, Ref)):
-        pass        # Ref: only references to immutable statics are created by the reader (constants)
+    elif isinstance(v, (Unit, AtomicRef, ConstRef)):
+        pass        # references to immutable statics are constants, not state
     else:
         raise Unsupported("cannot flatten %r" % (v,))
 
